@@ -67,3 +67,23 @@ Proof. intros l. repeat split; try reflexivity. unfold wsum. cbn. lra. Qed.
 Example C01_example : exists s, sma_new XROps 2 = Ok s /\
   sma_outs s (map Fin [3; -1; -1; 5]%R) = [Fin (mean [3]); Fin (mean [3; -1]); Fin (mean [-1; -1]); Fin (mean [-1; 5])]%R.
 Proof. eexists. split; [reflexivity|]. rewrite (sma_refines 2 _ _ eq_refl). reflexivity. Qed.
+
+(* ---- IEEE-754 binary64 (Coq primitive floats specified by FloatAxioms, through Flocq): the order hypotheses hold for <
+   on every float that is neither NaN nor -0.0 ([okF]), so Minimum / Maximum are exact on the float instance, bit for bit ---- *)
+From TA Require Import FloatInst Proofs.FloatOrder.
+Theorem C01_float_order : order_on (ltb FOps) (inf FOps) okF /\ order_on (fun a b => ltb FOps b a) (ninf FOps) okF.
+Proof. split; [exact float_order_min|exact float_order_max]. Qed.
+
+Theorem C01_min_least_binary64 : forall (p mi ci : N) (xs : list PrimFloat.float),
+  0 < p -> p <= ALLOC_MAX -> mi < p -> ci < p -> Forall okF xs ->
+  let outs := min_outs FOps (mkMin p mi ci (repeat (inf FOps) (N.to_nat p))) xs in
+  length outs = length xs /\
+  forall k, (k < length xs)%nat -> least_in FOps (lastn (N.to_nat p) (firstn (S k) xs)) (nth k outs (inf FOps)).
+Proof. intros p mi ci xs. exact (min_least FOps okF float_order_min p mi ci xs). Qed.
+
+Theorem C01_max_greatest_binary64 : forall (p mi ci : N) (xs : list PrimFloat.float),
+  0 < p -> p <= ALLOC_MAX -> mi < p -> ci < p -> Forall okF xs ->
+  let outs := max_outs FOps (mkMax p mi ci (repeat (ninf FOps) (N.to_nat p))) xs in
+  length outs = length xs /\
+  forall k, (k < length xs)%nat -> greatest_in FOps (lastn (N.to_nat p) (firstn (S k) xs)) (nth k outs (ninf FOps)).
+Proof. intros p mi ci xs. exact (max_greatest FOps okF p mi ci xs float_order_max). Qed.
